@@ -488,6 +488,9 @@ Definition dec_mouse (data : list N) : outcome pres :=
           let mode0 := N.land (N.land (N.shiftr event 2) 7) 511 in
           let mode := if last =? 77 then N.lor mode0 256 else mode0 in
           let button := N.land event 3 in
+          (* buttons 8..11 (bit 7) and the horizontal wheel (66, 67) have no name: `return None` *)
+          if negb (N.land event 128 =? 0) || (negb (N.land event 64 =? 0) && (1 <? button)) then Ok RNone
+          else
           let name :=
             if negb (N.land event 64 =? 0) then
               (if button =? 0 then 4 else if button =? 1 then 5 else 3)
